@@ -431,3 +431,51 @@ func verifC03_raw() {
 	c.CloseNow()
 	vObserve("raw", raw, len(g.msgs), vWireSummary(t.out))
 }
+
+// C03.abandon: the application reads only a part of a message and asks for the next one. The endpoint either refuses
+// (the previous message was not read to its end) or skips the rest; what it may never do is take the unread payload of
+// the abandoned frame for frames: a message it returns afterwards is the peer's next message, whatever the payload bytes
+// of the abandoned one look like (they are arbitrary - the solver looks for bytes that parse as a frame).
+func verifC03_abandon() {
+	client := vParam("client", 1) == 1
+	vInstallRand()
+	mk := func(f vFrame) vFrame {
+		f.masked = !client
+		if f.masked {
+			copy(f.key[:], vBytes("key", 4))
+		}
+		return f
+	}
+	n := 3 + vChoose("len", vParam("maxLen", 6))
+	first := vBytes("first", n)
+	next := vBytes("next", 1)
+	frag := vChoose("fragmented", 2) == 1
+	var frames []vFrame
+	if frag {
+		frames = append(frames, mk(vFrame{fin: false, opcode: 2, payload: first[:1]}), mk(vFrame{fin: true, opcode: 0, payload: first[1:]}))
+	} else {
+		frames = append(frames, mk(vFrame{fin: true, opcode: 2, payload: first}))
+	}
+	frames = append(frames, mk(vFrame{fin: true, opcode: 1, payload: next}))
+	t := vNewTransport(vEncodeFrames(frames))
+	t.endMode = vEndEOF
+	c := vNewConn(t, client, nil, 64, 64)
+	_, r, err := c.Reader(vBG)
+	vAssert(err == nil, "C03.abandon.first-reader-ok")
+	if err != nil {
+		return
+	}
+	k := 1 + vChoose("readBytes", 2)
+	p := make([]byte, k)
+	r.Read(p)
+	vReach("C03.abandon.abandoned")
+	for i := 0; i < 2; i++ {
+		typ, b, err := c.Read(vBG)
+		if err != nil {
+			continue
+		}
+		vAssert(vAnd(typ == MessageText, vEqBytes(b, next)), "C03.abandon.only-real-messages-are-delivered")
+	}
+	c.CloseNow()
+	vObserve("abandon", n, k, frag)
+}
